@@ -121,6 +121,9 @@ func (o aopts) v5() *jsonpatch.ApplyOptions {
 
 // DecodePatch + ApplyIndentWithOptions
 func callApply(o aopts, indent string, doc, patch []byte) string {
+	if os.Getenv("JP_TRACE") == "2" {
+		fmt.Fprintf(os.Stderr, "TRACE CALL %s %d %s %s %s\n", o.flags(), o.limit, hx([]byte(indent)), hx(doc), hx(patch))
+	}
 	return guarded(func() string {
 		p, err := jsonpatch.DecodePatch(patch)
 		if err != nil {
@@ -444,6 +447,9 @@ func firstFailing(c acase) string {
 }
 
 func emitApply(id string, c acase) {
+	if os.Getenv("JP_TRACE") != "" {
+		fmt.Fprintf(os.Stderr, "TRACE APPLY %s %s %d %s %s %s\n", id, c.o.flags(), c.o.limit, hx([]byte(c.indent)), hx(c.doc), hx(c.patch))
+	}
 	docSnap := append([]byte(nil), c.doc...)
 	patchSnap := append([]byte(nil), c.patch...)
 	obs := callApply(c.o, c.indent, c.doc, c.patch)
